@@ -11,7 +11,7 @@ RULE = ("every string up to the length bound over alphabets of 1..4 letters (and
         "find_neighbor_pairs_index, calculate_neighbor_numbers, isdist1; nndist_hamming over all 4-letter strings x all reference subsets; "
         "non-trivial = non-empty expected neighbourhood")
 ASSUMPTIONS = ["alphabets of more than 4 letters only through the default 20-letter alphabet on short strings"]
-REQUIRED_CLASSES = {"all": ["empty-string", "homopolymer", "repeated-run", "letter-outside-alphabet", "position-subset", "default-20-letter-alphabet", "nndist-cutoff", "mixed-length-reference", "more-than-255-neighbours", "one-shot-iterator-positions", "neighbourhood-with-repeats", "empty-reference"]}
+REQUIRED_CLASSES = {"all": ["empty-string", "homopolymer", "repeated-run", "letter-outside-alphabet", "position-subset", "default-20-letter-alphabet", "nndist-cutoff", "mixed-length-reference", "more-than-255-neighbours", "one-shot-iterator-positions", "neighbourhood-with-repeats", "empty-reference", "query-longer-than-every-reference"]}
 MIN_OUTCOMES = 10
 AA = "ACDEFGHIKLMNPQRSTVWY"
 
@@ -193,13 +193,23 @@ def check_case(case, acc):
                     return
                 acc.ok()
             acc.cls("empty-reference")
-            ref = set(fam[::2])
-            exp_n = [sum(1 for b in ref if dist(a, b) == 1) for a in seqs]
-            r = acc.call(pyrepseq.calculate_neighbor_numbers, seqs, reference=ref, neighborhood=f)
-            if raised(r) or list(r) != exp_n:
-                acc.fail("calculate_neighbor_numbers/%s/reference" % nb, case, exp_n, r)
-                return
-            acc.ok()
+            # explicit references, including ones whose strings are all shorter / all longer than some queries (a query one
+            # residue longer than every reference string still reaches it by a deletion)
+            for ref in (set(fam[::2]), {x for x in fam if len(x) <= 1}, {x for x in fam if len(x) == 2}, {""}, {x for x in fam if len(x) == 1}):
+                exp_n = [sum(1 for b in ref if dist(a, b) == 1) for a in seqs]
+                if any(len(a) > max(map(len, ref)) for a in seqs) and any(exp_n):
+                    acc.cls("query-longer-than-every-reference")
+                r = acc.call(pyrepseq.calculate_neighbor_numbers, seqs, reference=ref, neighborhood=f)
+                if raised(r) or list(r) != exp_n:
+                    acc.fail("calculate_neighbor_numbers/%s/reference" % nb, case, exp_n, r, note="reference=%r" % sorted(ref))
+                    return
+                for x in fam:
+                    e = any(dist(x, b) == 1 for b in ref)
+                    r = acc.call(pyrepseq.isdist1, x, ref, neighborhood=f)
+                    if raised(r) or bool(r) != e:
+                        acc.fail("isdist1/%s/reference-of-other-lengths" % nb, case, e, r, note="x=%r reference=%r" % (x, sorted(ref)))
+                        return
+                acc.ok()
             for x in fam:
                 e = any(dist(x, b) == 1 for b in seqs)
                 r = acc.call(pyrepseq.isdist1, x, set(seqs), neighborhood=f)
